@@ -243,6 +243,13 @@ def run(rep, tier, rng):
         for b in ("0", "5", "-1", "'sym"):
             texts.append(("builtin-kinds", "(vector-set! %s %s 9)" % (a, b)))
             texts.append(("builtin-kinds", "(make-vector %s %s)" % (b, a)))
+    # character literals beginning with a character outside ASCII (2, 3, 4 bytes) followed by letters, digits, `x` + hex digits, other
+    # non-ASCII characters; alone, in lists, in strings next to them
+    for lead in ("\u00e9", "\u03bb", "\u4e2d", "\U0001f600", "\u00ff", "x\u00e9", "\u00e9x"):
+        for rest in ("", "a", "1", "x41", "xe9", "\u00e9", "space", "newline", "ab12", "\U0001f600"):
+            texts.append(("non-ascii-characters", "#\\" + lead + rest))
+            texts.append(("non-ascii-characters", "'(#\\" + lead + rest + " 1)"))
+            texts.append(("non-ascii-characters", "(list \"" + lead + rest + "\" '" + lead + rest + " '|" + lead + " " + rest + "|)"))
     n_soup = 3000 if tier == "quick" else 80000
     for _ in range(n_soup):
         texts.append(("soup", soup(rng, rng.randrange(1, 25))))
